@@ -42,6 +42,17 @@ const char* kHostileHeaders[] = {
     "Set-Cookie: a=b; Max-Age=-1", "Set-Cookie: a=b; Domain=", "Set-Cookie: a", "Cookie: a=b; Max-Age=99999999999",
 };
 
+// request targets and whole request lines that a parser must survive
+const char* kHostileTargets[] = {
+    "/r?&a=1", "/r?a=1&&b=2", "/r?a&&", "/r?", "/r??", "/r?=", "/r?=&=", "/r?a=b=c", "/r?&", "/r?&&&&&&&&", "/r?a=%", "/r?a=%zz", "/r?%00=%00",
+    "/?", "?", "?a", "*", "/r#frag", "/r?a=1#x", "//", "/./../..", "/r?a=1;b=2", "http://host:1/abs?x=1", "/r?a==", "/r?=a", "/r?a&=&b", "/\x01\x02", "/r?\xff=\xfe",
+    "/r?a=1&", "/r?&=", "/%", "/%4", "/r?a[]=1&a[]=2", "/r?a=1&a=2&a=3",
+};
+const char* kHostileRequestLines[] = {
+    "GET  / HTTP/1.1", "GET /\tHTTP/1.1", "GET / HTTP/1.1 extra", "get / HTTP/1.1", "GET / HTTP/9.9", "GET / HTTP/1.", "GET / HTTP/", "GET / H", "GET / ", "GET /", "GET ", "GET",
+    "G", "", " GET / HTTP/1.1", "GET / HTTP/1.1\r", "XYZZY / HTTP/1.1", "GET /?a=1&&b HTTP/1.1", "GET ? HTTP/1.1", "POST /?& HTTP/1.0", "GET /a b HTTP/1.1", "GET\t/\tHTTP/1.1",
+};
+
 std::string hostile_message(sim::Rng& rng, size_t max_size)
 {
     int k = static_cast<int>(rng.below(10));
@@ -53,7 +64,11 @@ std::string hostile_message(sim::Rng& rng, size_t max_size)
     }
     if (k < 9) {
         // a valid skeleton with hostile header lines
-        std::string s = std::string(rng.chance(0.8) ? "POST" : "GET") + " /" + msggen::token(rng, 0, 6) + " HTTP/1.1\r\n";
+        std::string s;
+        int lk = static_cast<int>(rng.below(10));
+        if (lk < 4) s = std::string(rng.chance(0.8) ? "POST" : "GET") + " /" + msggen::token(rng, 0, 6) + " HTTP/1.1\r\n";
+        else if (lk < 8) s = std::string(rng.chance(0.5) ? "POST " : "GET ") + kHostileTargets[rng.below(sizeof kHostileTargets / sizeof kHostileTargets[0])] + " HTTP/1.1\r\n";
+        else s = std::string(kHostileRequestLines[rng.below(sizeof kHostileRequestLines / sizeof kHostileRequestLines[0])]) + "\r\n";
         int n = static_cast<int>(rng.range(1, 5));
         for (int i = 0; i < n; ++i) s += std::string(kHostileHeaders[rng.below(sizeof kHostileHeaders / sizeof kHostileHeaders[0])]) + "\r\n";
         s += "\r\n";
